@@ -559,12 +559,22 @@ def rule_fail(ctx, res, loop):
 
 
 def run(ctx, res):
-    r = rule_sections(ctx, res)
-    if r is None:
-        return
-    loop, sections = r
-    rule_select(ctx, res, loop, sections)
-    rule_fail(ctx, res, loop)
+    from . import c13eval
+    evaluated = c13eval.report(ctx, res)
+    sections = c13eval.SECTIONS
+    if evaluated:
+        # the statement-form rules below read the same facts off the loop's
+        # shape; they stay as the fallback for code the evaluation cannot
+        # follow and are not run on top of a decided evaluation (a refactored
+        # do_build would only make them answer "cannot follow")
+        pass
+    else:
+        r = rule_sections(ctx, res)
+        if r is None:
+            return
+        loop, sections = r
+        rule_select(ctx, res, loop, sections)
+        rule_fail(ctx, res, loop)
     secs = set(sections) | {'empty_' + s for s in sections} | {
         'filename', 'lua_path'}
     cli.rule_wiring(ctx, res, 'build', check_writer=False, only_options=secs)
